@@ -8,8 +8,9 @@
 // deepening). Fixture: tables a(id INTEGER AUTO_INCREMENT, v) with row (1,0) and t(id INTEGER, v) with row
 // (1,1); all statements collide on t[1]/t[2]. A statement that is a protocol error in the reference AND in the
 // engine (COMMIT / SAVEPOINT outside a transaction, BEGIN inside one, ROLLBACK TO / RELEASE of a savepoint that
-// was never established) is checked and not extended. "outside:" is a statement of a second, autocommit
-// session executed while the transaction is open (sequentially; the only way to make a COMMIT fail).
+// was never established) is checked and not extended. "outside:" is one atomic two-table transaction of a
+// second session (tx=nil), executed while the transaction is open (sequentially; the only way to make a
+// COMMIT fail, and it shows whether the transaction reads from ONE snapshot: it must see all or nothing of it).
 // (Measured: ~25 ms CPU per program, store open/close dominates; 25k programs in the quick tier.)
 //
 // Observation modes (each program runs in both): "all" = views compared after every statement, "last" =
@@ -25,7 +26,7 @@
 // First/LastInsertedPKs() of the open and of the committed SQLTx == what the reference applied (generated
 // keys are taken from the report and must then be found in the table), (5) close + reopen: unchanged.
 //
-// Known defects are modelled as optional "quirks" of the reference; the 2^3 variants run in lockstep and a
+// Known defects are modelled as optional "quirks" of the reference; the 2^4 variants run in lockstep and a
 // mismatch with the specification variant is classified by the smallest surviving variant (signature =
 // quirk name + shortest program prefix that activates it); if no variant survives the mismatch gets the
 // signature of the failing comparison (tx-visible-outside, rollback-left-effects, own-write-not-visible,
@@ -91,11 +92,12 @@ var sqlText = [nOps]string{
 	"RELEASE SAVEPOINT s1",
 	"COMMIT",
 	"ROLLBACK",
-	"UPSERT INTO t(id,v) VALUES (1,99)", // executed by a second autocommit session while the tx is open
+	// one atomic transaction of a SECOND session (tx=nil) executed while the tx is open: writes both tables
+	"BEGIN TRANSACTION; UPSERT INTO a(id,v) VALUES (1,50); UPSERT INTO t(id,v) VALUES (1,99); COMMIT",
 }
 
 var opName = [nOps]string{"BEGIN", "INSERT a", "INSERT t(1,3)", "INSERT t(2,2)", "UPSERT t(1,7)", "UPDATE t", "DELETE t[1]", "CREATE u",
-	"SAVEPOINT s1", "SAVEPOINT s2", "ROLLBACK TO s1", "ROLLBACK TO s2", "RELEASE s1", "COMMIT", "ROLLBACK", "outside:UPSERT t(1,99)"}
+	"SAVEPOINT s1", "SAVEPOINT s2", "ROLLBACK TO s1", "ROLLBACK TO s2", "RELEASE s1", "COMMIT", "ROLLBACK", "outside:{UPSERT a(1,50); UPSERT t(1,99)}"}
 
 var allOps = func() (o []int) {
 	for i := 0; i < nOps; i++ {
@@ -177,10 +179,12 @@ const (
 	qKeepWrites      = 1 << iota // ROLLBACK TO SAVEPOINT restores the counters only, all writes (and DDL) stay
 	qInsAfterDel                 // INSERT of a key deleted earlier in the same transaction fails "key already exists"
 	qDDLNotQueryable             // a table created in the open transaction cannot be queried by it ("index not found")
+	qLazySnapshot                // snapshots are taken per table at first access: a commit of another tx is seen for one table only
 	nVariants        = 1 << iota
 )
 
-var quirkSig = map[int]string{qKeepWrites: "savepoint-rollback-keeps-writes", qInsAfterDel: "insert-after-own-delete-fails", qDDLNotQueryable: "own-created-table-not-queryable"}
+var quirkSig = map[int]string{qKeepWrites: "savepoint-rollback-keeps-writes", qInsAfterDel: "insert-after-own-delete-fails", qDDLNotQueryable: "own-created-table-not-queryable",
+	qLazySnapshot: "snapshot-not-atomic-across-tables"}
 
 const (
 	spAbsent = iota
@@ -205,7 +209,12 @@ type txm struct {
 	status      map[string]int
 	dup         map[string]bool
 	seq         int
-	tainted     bool // an outside write happened while this tx was open: its view of t is not compared
+	// An outside transaction committed while this tx was open ("tainted"): the property fixes ONE snapshot but not
+	// when it is taken, so the tx may see all of the outside transaction or nothing of it (never a part, never
+	// first one and then the other). t is compared only while the tx has not touched it.
+	tainted  bool
+	touchedT bool
+	saw      int // 0 not yet determined, 1 snapshot before the outside commit, 2 after
 }
 
 func newTxm(c db) *txm {
@@ -278,6 +287,7 @@ func (m *model) step(op, idx int, engErr bool, key int64) (o outcome) {
 				return
 			}
 			x.w.tUnknown, o.leaf = true, true
+			x.w.a[1] = 50 // no statement of the alphabet writes a[1]: the outside value stays
 		}
 		publish()
 		return
@@ -285,8 +295,11 @@ func (m *model) step(op, idx int, engErr bool, key int64) (o outcome) {
 		m.tx = nil
 		return
 	case opOutside:
-		m.c.t[1] = 99
+		m.c.a[1], m.c.t[1] = 50, 99
 		x.tainted = true
+		if m.q&qLazySnapshot != 0 {
+			m.activate(qLazySnapshot, idx)
+		}
 		return
 	case opSp1, opSp2:
 		n := []string{"s1", "s2"}[op-opSp1]
@@ -331,6 +344,9 @@ func (m *model) step(op, idx int, engErr bool, key int64) (o outcome) {
 	}
 	// DML / DDL
 	ok := true
+	if op >= opIns1 && op <= opDel1 {
+		x.touchedT = true
+	}
 	if x.tainted && op >= opIns1 && op <= opDel1 {
 		o.err, x.updUnknown = 2, true
 		ok = !engErr
@@ -535,7 +551,7 @@ type replay struct {
 	Path  []int  `json:"path"`
 }
 
-// candidates = the 2^3 reference variants still consistent with everything observed in this run
+// candidates = the 2^4 reference variants still consistent with everything observed in this run
 type candidates struct {
 	m        [nVariants]*model
 	alive    [nVariants]bool
@@ -583,7 +599,7 @@ func (cs *candidates) settle(kind string, front string, mode int, path []int, k 
 			cs.reported[q] = true
 			reportKnownDefect(q, lib.Violation{Sig: fmt.Sprintf("%s program=%s", quirkSig[q], prog(path[:at+1])),
 				Detail: fmt.Sprintf("observed in %s (mode %s, front %s) after statement %d: the run equals the reference variant with defect(s) %s and differs from the specification: %s",
-					prog(path[:k+1]), modeName[mode], front, k+1, quirkNames(best), cs.why[0]), Replay: replay{front, mode, path[:k+1]}}, at+1)
+					prog(path[:k+1]), modeName[mode], front, k+1, quirkNames(best), cs.why[0]), Replay: replay{front, mode, path[:k+1]}}, at+1, front != "engine")
 		}
 	}
 	return true
@@ -591,7 +607,8 @@ func (cs *candidates) settle(kind string, front string, mode int, path []int, k 
 
 // A known defect shows in thousands of programs. They are collected and, at the end of every level of the
 // search (flushKnownDefects), only the witnesses of minimal length per defect become violations (all of that
-// length, in sorted order => deterministic); the longer ones are counted.
+// length, in sorted order => deterministic); the longer ones are counted. Reports of the wire fronts (which run
+// next to the engine phase) are held back until the engine phase is complete.
 type pendingDefect struct {
 	q, n int
 	v    lib.Violation
@@ -600,18 +617,26 @@ type pendingDefect struct {
 var (
 	pendMu  sync.Mutex
 	pending []pendingDefect
+	held    []pendingDefect
 	minLen  = map[int]int{}
 )
 
-func reportKnownDefect(q int, v lib.Violation, n int) {
+func reportKnownDefect(q int, v lib.Violation, n int, hold bool) {
 	pendMu.Lock()
-	pending = append(pending, pendingDefect{q, n, v})
+	if hold {
+		held = append(held, pendingDefect{q, n, v})
+	} else {
+		pending = append(pending, pendingDefect{q, n, v})
+	}
 	pendMu.Unlock()
 }
 
-func flushKnownDefects() {
+func flushKnownDefects(all bool) {
 	pendMu.Lock()
 	defer pendMu.Unlock()
+	if all {
+		pending, held = append(pending, held...), nil
+	}
 	sort.Slice(pending, func(i, j int) bool {
 		if pending[i].n != pending[j].n {
 			return pending[i].n < pending[j].n
@@ -644,6 +669,43 @@ func quirkNames(q int) string {
 		}
 	}
 	return strings.Join(s, "+")
+}
+
+// cmpIn compares the view inside the open transaction x (reference variant q).
+func (x *txm) cmpIn(got views, q int) string {
+	if !x.tainted {
+		return cmpViews(got, x.w, true, q, false)
+	}
+	// two admissible snapshots: before (1) / after (2) the outside commit, each with the tx's own changes on top
+	after := x.w.clone()
+	after.a[1] = 50
+	if !x.touchedT {
+		after.t[1] = 99
+	}
+	fits := func(d db) bool { return cmpViews(got, d, true, q, x.touchedT) == "" }
+	if q&qLazySnapshot != 0 { // defect variant: every table may be before or after on its own; t is not compared
+		if w := cmpViews(views{a: got.a, t: got.t, u: got.u}, x.w, true, q, true); w != "" && cmpViews(got, after, true, q, true) != "" {
+			return w
+		}
+		return ""
+	}
+	s := 0
+	switch {
+	case fits(x.w):
+		s = 1
+	case fits(after):
+		s = 2
+	default:
+		return fmt.Sprintf("the view a=%s t=%s is neither the snapshot before the outside commit (a=%s t=%s) nor the one after it (a=%s t=%s) (+ own changes)", got.a, got.t, x.w.a, x.w.t, after.a, after.t)
+	}
+	if x.touchedT && x.w.a.String() == after.a.String() {
+		return "" // cannot tell the snapshots apart
+	}
+	if x.saw != 0 && x.saw != s {
+		return fmt.Sprintf("the snapshot changed inside the transaction: first %d then %d (1 = before, 2 = after the outside commit)", x.saw, s)
+	}
+	x.saw = s
+	return ""
 }
 
 func cmpViews(got views, d db, inTx bool, q int, skipT bool) string {
@@ -770,7 +832,7 @@ func runEngine2(mode int, path []int) (stop, notApplicable bool) {
 					if m.tx == nil {
 						return ""
 					}
-					return cmpViews(in, m.tx.w, true, q, m.tx.tainted)
+					return m.tx.cmpIn(in, q)
 				}) {
 					return true, false
 				}
@@ -787,7 +849,7 @@ func runEngine2(mode int, path []int) (stop, notApplicable bool) {
 				return true, false
 			}
 		}
-		note(op, wasOpen, engErr, cs.m[firstAlive(cs)])
+		note(op, wasOpen, engErr)
 		if o0.leaf {
 			return true, false
 		}
@@ -842,7 +904,7 @@ func firstAlive(cs *candidates) int {
 }
 
 // note counts what the explored programs exercised (non-vacuity numbers).
-func note(op int, wasOpen, engErr bool, m *model) {
+func note(op int, wasOpen, engErr bool) {
 	switch {
 	case op == opCommit && wasOpen && engErr:
 		c.Add("failed_commits", 1)
@@ -862,7 +924,8 @@ func note(op int, wasOpen, engErr bool, m *model) {
 func main() {
 	c = lib.New("C13", "model_checking", 100*time.Second, 25*time.Minute)
 	debug.SetGCPercent(50) // measured: fresh stores allocate large zeroed buffers, a small heap avoids page faults
-	c.Assume("sequential part only: one session drives the transaction, a second autocommit session only through the single 'outside:' statement; real concurrency is the scheduler phase")
+	c.Assume("sequential part only: one session drives the transaction, a second session only through the single atomic 'outside:' transaction; real concurrency is the scheduler phase")
+	c.Assume("the property fixes one snapshot per transaction but not the moment it is taken: after an outside commit the transaction may see all of it or nothing of it (then consistently); a COMMIT after an outside commit may fail or succeed")
 	c.Assume("a failing statement aborts the whole transaction (Engine.execPreparedStmts cancels it); the caller continues with the *SQLTx returned by Exec")
 	c.Assume("the value of a generated key is not predicted (not defined by the property): the reported key is applied to the reference and must be fresh and present afterwards")
 	c.Assume("savepoint existence after ROLLBACK TO / RELEASE of an EARLIER or the SAME savepoint, and of a re-declared name after RELEASE, is not defined by the property: such uses are executed, the outside view is compared, the program is not extended")
@@ -882,7 +945,7 @@ func main() {
 		var r replay
 		c.LoadReplay(&r)
 		runFront(r)
-		flushKnownDefects()
+		flushKnownDefects(true)
 		c.AddEvals(1)
 		c.AddStates(1, 1)
 		cleanup()
@@ -900,7 +963,7 @@ func main() {
 	go func() { defer wg.Done(); phaseFrontends(ts, frontLen) }()
 	phaseEngine(fullDepth, extra, lastOps)
 	wg.Wait()
-	flushKnownDefects()
+	flushKnownDefects(true)
 	// (a concurrent-sessions phase under the controlled scheduler goes here)
 	cleanup()
 	c.Finish(fmt.Sprintf("engine front: every program over the %d-statement alphabet up to engine_full_depth_completed statements, plus the programs starting with BEGIN extended by one more statement (quick: COMMIT/ROLLBACK; thorough: any), each on a fresh store through sql.Engine.Exec in the observation modes all/last, against the reference interpreter: statement results, affected rows, generated keys, in-transaction view and outside view after every statement, Cancel of an abandoned transaction, close+reopen. Wire fronts (pgwire, session): every program over the 11-statement sub-alphabet up to front_*_length_completed. distinct = (front/mode, program) pairs executed", nOps), !c.Expired())
@@ -956,7 +1019,7 @@ func phaseEngine(fullDepth int, extraModes []int, lastOps []int) {
 			c.CapHit(fmt.Sprintf("engine front: time budget reached at length %d (%s) mode %s after %d of %d candidate programs", d, what, modeName[mode], done.Load(), len(fr)*nOps))
 			return false
 		}
-		flushKnownDefects()
+		flushKnownDefects(false)
 		c.Set(fmt.Sprintf("engine_programs_length_%d_%s_mode_%s", d, what, modeName[mode]), ran.Load())
 		frontier[mode] = frontier[mode][:0]
 		for _, p := range next {
